@@ -356,7 +356,11 @@ func (x *run) runWriter(idx int, cs *ClientState) {
 					fr = *op.Frag
 				}
 				src := NewSimSource(x.w, fmt.Sprintf("W%d.src", idx), input[pos:pos+n], plan.Source{Frag: fr, Faults: op.SrcFaults}, nil)
-				rn, err := zw.ReadFrom(src)
+				var rsrc io.Reader = src
+				if op.Bufio > 0 {
+					rsrc = bufio.NewReaderSize(src, op.Bufio)
+				}
+				rn, err := zw.ReadFrom(rsrc)
 				r.N, r.Err = rn, classify(err)
 				r.SrcFault = src.FaultPos >= 0
 				if rn > 0 && int(rn) <= n {
@@ -414,10 +418,14 @@ func (x *run) runReader(idx int, cs *ClientState) {
 	cur := 0
 	out.Delivered = append(out.Delivered, nil)
 	wrap := func(i int) io.Reader {
-		if n := rs.Srcs[i].Bufio; n > 0 {
-			return bufio.NewReaderSize(out.Srcs[i], n)
+		var src io.Reader = out.Srcs[i]
+		if rs.Srcs[i].Seeker {
+			src = SeekSource{out.Srcs[i]}
 		}
-		return out.Srcs[i]
+		if n := rs.Srcs[i].Bufio; n > 0 {
+			return bufio.NewReaderSize(src, n)
+		}
+		return src
 	}
 	zr := lz4.NewReader(wrap(0))
 	hs := &handlerState{yields: rs.HYield}
@@ -497,7 +505,11 @@ func (x *run) runReader(idx int, cs *ClientState) {
 				}
 				sink := NewSimSink(x.w, fmt.Sprintf("R%d.wt%d", idx, len(out.WTSinks)), sp)
 				out.WTSinks = append(out.WTSinks, sink)
-				n, err := zr.WriteTo(sink)
+				var dst io.Writer = sink
+				if sp.Grow {
+					dst = GrowSink{sink}
+				}
+				n, err := zr.WriteTo(dst)
 				r.N, r.Err, r.Calls = n, classify(err), 1
 				r.SinkFaultAt = sink.FaultAt
 				out.Delivered[len(out.Delivered)-1] = append(out.Delivered[len(out.Delivered)-1], sink.Buf...)
